@@ -34,8 +34,12 @@ def write(pid, tier, seed, coverage, assumptions, wall_s, violations, level="mod
         wall_s=round(float(wall_s), 2),
         violations=int(violations),
     )
-    os.makedirs(os.path.join(VERIF, "evidence"), exist_ok=True)
-    path = os.path.join(VERIF, "evidence", f"{pid}.json")
+    # runs against a scratch copy of the repository (mutant testing) must not overwrite the real evidence
+    edir = os.path.join(VERIF, "evidence")
+    if os.environ.get("VERIF_REPO", "/repo") != "/repo":
+        edir = os.environ.get("VERIF_EVIDENCE_DIR", "/tmp/verif_alt_evidence")
+    os.makedirs(edir, exist_ok=True)
+    path = os.path.join(edir, f"{pid}.json")
     tmp = path + ".tmp"
     with open(tmp, "w") as f:
         json.dump(doc, f, indent=1, sort_keys=False)
